@@ -283,4 +283,15 @@ PROPS['C13']['explanation'] = PROPS['C13']['explanation'].replace('(b) unknown c
     'unchanged, iff one of its parts names an unregistered constraint (C13_unknown_constraint_is_named_and_unregistered); also judged by Registry.insert_spec on every real insert. (d) for every history with the registered check functions: '
     'C13_reachable_rejection_skips_one_alternative.')
 
+PROPS['C15']['primary'] = PROPS['C15']['primary'] + ['SplitChar']
+PROPS['C15']['rule'] += ('; SplitChar: on every real dump, the label paths Display prints for the marked nodes (each literal key decoded on its own, as the real Display does - tied by the Display channel) compared with the stored bytes')
+PROPS['C15']['explanation'] += (' DISPLAY LISTS EXACTLY THE LIVE ROUTES (Proofs/SpellP.v, closed, every history): C15_labels_spell_exactly_the_stored_routes - concatenating the labels (literal keys as stored bytes, '
+    'parameter keys in braces as printed) from the root to every node with data yields exactly the renderings of the stored routes, each route once (routes_nodup), in Display order; '
+    'C15_stored_routes_are_the_live_expansions - those are exactly the expansions of the live templates; C15_rendering_of_an_expansion - literal parts verbatim (unescaped by the parser), parameters in braces. '
+    'C15_printed_labels_spell_the_routes_partial: the labels as PRINTED (each literal key decoded on its own by from_utf8_lossy) spell the same provided every literal key is valid UTF-8 on its own. '
+    'C15_printed_labels_refuted (witness by vm_compute, replayed on the crate): insert "/\u00e9", insert "/\u00ea" - the two literal siblings part inside the two-byte character and Display prints "/\ufffd" with children "\ufffd", "\ufffd"; '
+    'the printed labels do not spell the live routes. KNOWN FINDING K2 (known-findings.txt): not repaired - node keys are split at byte granularity by design (radix tree over bytes; the other clause of this very property, '
+    '"literal siblings begin with different bytes", depends on it) and Display renders each node separately; a repair would have to change what the tree prints for every such node. The check reports every other '
+    'difference between printed and stored label paths through Display/Tree/Routes as before.')
+
 NOT_APPLICABLE = {}
